@@ -83,8 +83,75 @@ fn probe(which: &str, x: u32) -> (String, Option<u32>, bool) {
     }
 }
 
+/// Arithmetic laws stated by the properties themselves, over the full domain:
+///   round8:   r = increase_to_alignment(n) is the least multiple of 8 that is >= n        (C14)
+///   checksum: magic + arch + length + calc_checksum(magic, arch, length) = 0 (mod 2^32)    (C10)
+fn law_sweep(which: &str, stride: u64) {
+    use multiboot2_header::{HeaderTagISA, Multiboot2Header};
+    let threads = std::thread::available_parallelism().map(|n| n.get()).unwrap_or(8) as u64;
+    let bad = AtomicU64::new(0);
+    let checked = AtomicU64::new(0);
+    let samples: Mutex<Vec<Value>> = Mutex::new(Vec::new());
+    let magics: [u32; 3] = [multiboot2_header::MAGIC, 0, 0xFFFF_FFFF];
+    std::thread::scope(|s| {
+        for t in 0..threads {
+            let (bad, checked, samples, magics) = (&bad, &checked, &samples, &magics);
+            s.spawn(move || {
+                let chunk = (1u64 << 32) / threads;
+                let (from, to) = (t * chunk, if t == threads - 1 { 1u64 << 32 } else { (t + 1) * chunk });
+                let mut n = 0u64;
+                let mut x = from;
+                while x < to {
+                    let ok = match which {
+                        "round8" => {
+                            let r = multiboot2_common::increase_to_alignment(x as usize) as u64;
+                            r % 8 == 0 && r >= x && r < x + 8
+                        }
+                        _ => {
+                            let l = x as u32;
+                            let mut ok = true;
+                            for arch in [HeaderTagISA::I386, HeaderTagISA::MIPS32] {
+                                // the first magic for every length, the others on a sub-grid
+                                for (i, m) in magics.iter().enumerate() {
+                                    if i > 0 && x % 4099 != 0 {
+                                        continue;
+                                    }
+                                    let c = std::panic::catch_unwind(|| Multiboot2Header::calc_checksum(*m, arch, l));
+                                    ok &= match c {
+                                        Ok(c) => m.wrapping_add(arch as u32).wrapping_add(l).wrapping_add(c) == 0,
+                                        Err(_) => false,
+                                    };
+                                }
+                            }
+                            ok
+                        }
+                    };
+                    n += 1;
+                    if !ok {
+                        let b = bad.fetch_add(1, Ordering::Relaxed);
+                        if b < 5 {
+                            samples.lock().unwrap().push(json!({"x": x}));
+                        }
+                    }
+                    x += stride;
+                }
+                checked.fetch_add(n, Ordering::Relaxed);
+            });
+        }
+    });
+    println!(
+        "{}",
+        json!({"sweep": which, "checked": checked.load(Ordering::Relaxed), "mismatches": bad.load(Ordering::Relaxed), "samples": *samples.lock().unwrap()})
+    );
+}
+
 pub fn main(args: &[String]) {
-    // sweep <which> <table.json> <table name> [stride]
+    // sweep <which> <table.json> <table name> [stride]      |      sweep round8|checksum - - [stride]
+    if args[0] == "round8" || args[0] == "checksum" {
+        std::panic::set_hook(Box::new(|_| {}));
+        law_sweep(&args[0], args.get(3).map(|s| s.parse().unwrap()).unwrap_or(1));
+        return;
+    }
     let which = args[0].clone();
     let rows = load_table(&args[1], &args[2]);
     let stride: u64 = args.get(3).map(|s| s.parse().unwrap()).unwrap_or(1);
